@@ -75,6 +75,10 @@ def c10a(ctx):
             need_all = qn.endswith(('WMSServer.map', 'WMSServer.featureinfo'))
             present = [a for a in auths if g.find(lambda y: is_call(y, a))]
             ok = not missing if need_all else not g.reaches_avoiding(0, n, avoid=set(anodes))
+            # an authorization call that is an argument of the content call itself is evaluated before it
+            inner = {a for a in auths if any(y is not x and is_call(y, a) for arg in list(x.args) + [k_.value for k_ in x.keywords] + [x.func] for y in ast.walk(arg))}
+            if not ok and inner:
+                ok = (set(missing) <= inner) if need_all else True
             if need_all and len(present) < len(auths):
                 ok = False
                 missing = [a for a in auths if a not in present]
